@@ -150,6 +150,12 @@ let () =
         let cs = times nc parse_change in
         big := nc > 12;
         let verdict l = match replay l c0 with Some _ -> "ok" | None -> "fail" in
+        if _mode = "sqlite" then begin
+          (* stage sqlite: the statements follow the change list; bracket iff a table is dropped or rebuilt *)
+          let (off, l) = sqlite_plan cs in
+          let v = match sreplay off l c0 with Some _ -> "ok" | None -> "fail" in
+          Printf.printf "%s sqlite out=%s fk=%s replay=%s\n" id (show_out l) (if off then "off" else "on") v
+        end else
         if _mode = "tidb" then
           (* stage tidb: tidb.go PlanChanges = DetachCycles, flat, stable sort by priority, the MySQL planner on each atomic change *)
           (match tidb_plan cs with
